@@ -122,8 +122,8 @@ def l3(h):
     hgt = h.real('hgt', -1.0, 850.0)
     h.definedness = 'assume'        # the square roots / arcsin of geodetic2spherical are L4's subject
     _StubbedWMM._h = h
-    w = _StubbedWMM(date=2022.0, latitude=10.0, longitude=20.0)
-    w.magnetic_field(lat, lon, hgt, date=2022.0)
+    w = _StubbedWMM(date=2021.3, latitude=10.0, longitude=20.0)
+    w.magnetic_field(lat, lon, hgt, date=2021.3)          # 1.3 years after the epoch: not exact in binary
     dt = round(w.date_dec, 1) - w.epoch
     # geocentric latitude and radius exactly as the code obtains them
     latr = lat * (np.pi / 180.0)
